@@ -786,6 +786,7 @@ func c09E2E(c *Ctx, tuples []c09Tuple) {
 	}
 	wg.Wait()
 	c09SameTextTwice(c, bed)
+	c09KeyspaceSwitchSameConn(c, bed)
 
 	if atomic.LoadInt32(&stalls) >= c09MaxStalls {
 		r.Inconc(fmt.Sprintf("C09 e2e: %d requests were never answered; the rest of this shard's sample was abandoned", stalls))
@@ -1011,6 +1012,106 @@ func c09SameTextTwice(c *Ctx, bed *px.Bed) {
 								Scenario: map[string]interface{}{"kind": "c09-same-text", "n": n}})
 						}
 					}
+				}
+			}
+		}
+	}
+}
+
+// c09KeyspaceSwitchSameConn: one connection keeps sending the identical unqualified text while its current keyspace changes
+// under it - none, system, a user keyspace, system again ... - each change made by a USE sent as QUERY or as PREPARE + EXECUTE.
+// Whether the text is the proxy's own must follow the keyspace in force at that moment: in keyspace system it is answered by
+// the proxy (no backend sees it), anywhere else it is forwarded (exactly one backend arrival).
+func c09KeyspaceSwitchSameConn(c *Ctx, bed *px.Bed) {
+	r := c.R
+	n := 0
+	for _, tbl := range []string{"local", "peers", "PEERS_V2"} {
+		for _, prepare := range []bool{false, true} {
+			for usePrepared := 0; usePrepared < 2; usePrepared++ {
+				for start := 0; start < 2; start++ {
+					cl, err := c09Connect(bed, c09Val{})
+					if err != nil {
+						r.Inconc("C09 keyspace-switch: " + err.Error())
+						return
+					}
+					n++
+					lit := fmt.Sprintf("switchtext%04d", n)
+					text := fmt.Sprintf("SELECT * FROM %s WHERE key='%s'", tbl, lit)
+					stream := int16(200)
+					call := func(msg message.Message) *rawcql.Frame {
+						stream++
+						f, _ := cl.Call(stream, msg, c09Wait)
+						return f
+					}
+					use := func(ks string) bool {
+						q := "USE " + ks
+						if usePrepared == 0 {
+							f := call(&message.Query{Query: q, Options: &message.QueryOptions{Consistency: primitive.ConsistencyLevelOne}})
+							return f != nil && f.OpCode == primitive.OpCodeResult
+						}
+						f := call(&message.Prepare{Query: q})
+						if f == nil || f.OpCode != primitive.OpCodeResult {
+							return false
+						}
+						fr, err := cl.Decode(f)
+						if err != nil {
+							return false
+						}
+						pr, ok := fr.Body.Message.(*message.PreparedResult)
+						if !ok {
+							return false
+						}
+						f = call(&message.Execute{QueryId: pr.PreparedQueryId, Options: &message.QueryOptions{Consistency: primitive.ConsistencyLevelOne}})
+						return f != nil && f.OpCode == primitive.OpCodeResult
+					}
+					seq := []string{"", "system", "ks1", "system", "ks1"}
+					if start == 1 {
+						seq = []string{"system", "ks1", "system"}
+					}
+					cur := ""
+					okRun := true
+					for step, ks := range seq {
+						if ks != "" {
+							if !use(ks) {
+								r.Obs("keyspace_switch_use_failed", 1)
+								okRun = false
+								break
+							}
+							cur = ks
+						}
+						mark := bed.Log.Len()
+						var msg message.Message = &message.Query{Query: text, Options: &message.QueryOptions{Consistency: primitive.ConsistencyLevelOne}}
+						if prepare {
+							msg = &message.Prepare{Query: text}
+						}
+						call(msg)
+						call(&message.Query{Query: "SELECT * FROM ks1.t WHERE key='" + NewTok() + "'", Options: &message.QueryOptions{Consistency: primitive.ConsistencyLevelOne}}) // barrier: one forwarded statement
+						seen := 0
+						for _, e := range bed.Log.Snapshot()[mark:] {
+							if e.Src == "backend" && e.K == "recv" && !e.Ctl && bytes.Contains(e.Body, []byte(lit)) {
+								seen++
+							}
+						}
+						want := 1
+						if cur == "system" {
+							want = 0
+						}
+						r.Eval(1)
+						r.Obs("keyspace_switch_sends", 1)
+						r.NonTrivial(fmt.Sprintf("keyspace-switch/%s/prepare=%v/use-prepared=%d/start=%d/step=%d", tbl, prepare, usePrepared, start, step))
+						if seen != want {
+							what := "system-read-forwarded"
+							if want == 1 {
+								what = "user-statement-intercepted"
+							}
+							r.Violate(mon.Violation{Signature: fmt.Sprintf("C09/keyspace-switch-same-connection/%s/use-as=%s/prepare=%v", what, []string{"query", "prepare+execute"}[usePrepared], prepare),
+								Detail: fmt.Sprintf("one connection, keyspaces in turn %q (each USE sent as %s): in step %d the current keyspace is %q and the text %q, sent before on this connection under another keyspace, reached a backend %d times (must be %d)",
+									seq, []string{"QUERY", "PREPARE + EXECUTE"}[usePrepared], step, cur, text, seen, want),
+								Scenario: map[string]interface{}{"kind": "c09-keyspace-switch", "n": n}})
+						}
+					}
+					_ = okRun
+					cl.Close()
 				}
 			}
 		}
